@@ -1771,20 +1771,7 @@ func c06FourthHunt(ctx *Ctx, r *Report) {
 		r.Check(asksNullable, "skeleton/python-named-optional-default", "python.defaultValueForTypeRec defaults a reference to a named optional", fd.Pos(), "None when the referred object's own type is nullable",
 			"the default of a reference is `Name()` whatever the referred object: `MaybeName: string | null` is a typing.Optional alias once the chain made it a nullable string — User() raises TypeError: Cannot instantiate typing.Union")
 	}
-	if fn := ctx.LookupMethod("internal/jennies/golang", "Builder", "generateBuilder"); fn == nil {
-		r.Undecided("anchor lost: golang.Builder.generateBuilder")
-	} else if fd, _ := ctx.DeclOf(fn); fd != nil {
-		asks := false
-		ast.Inspect(fd.Body, func(m ast.Node) bool {
-			if sel, ok := m.(*ast.SelectorExpr); ok && sel.Sel.Name == "Nullable" && strings.Contains(exprString(sel.X), ".For.Type") {
-				asks = true
-			}
-			return true
-		})
-		n++
-		r.Check(asks, "skeleton/go-named-optional-builder", "golang.Builder.generateBuilder builds an object whose own type can be nullable", fd.Pos(), "it asks whether builder.For.Type is nullable",
-			"the Go builder of `MaybeAddress: Address | null` — `type MaybeAddress = *Address` once the chain made it a nullable reference — is written as for a struct: `internal *MaybeAddress`, `&MaybeAddress{}`, `builder.internal.City` — invalid composite literal type, the module does not compile")
-	}
+	n += c06GoNamedOptionalBuilder(ctx, r)
 	r.Count("hunted clauses of the normal forms (4th hunt)", n)
 	r.Floor("hunted clauses of the normal forms (4th hunt)", 4)
 }
@@ -1827,6 +1814,27 @@ func c06ListAliasExpandedOnce(ctx *Ctx, r *Report) int {
 		n++
 		r.Check(visit.IsValid() && guarded, "flow/list-alias-expanded-once", "compiler.RemoveIntersections.redirectReference visits the list it puts in place of an alias", fd.Pos(), "after looking the alias up in the set of those being expanded, with an error exit",
 			"redirectReference replaces ref(Tree) by the list Tree stands for and visits it, with no memory of the aliases being expanded: `Tree: Nodes`, `Nodes: [...Tree]` — a nested list, which every other chain handles — recurses until the stack overflows (fatal error, the process dies: no error is returned)")
+	}
+	return n
+}
+
+// c06GoNamedOptionalBuilder: see c06FourthHunt. Also run by C16: the builder derived for an object that is a struct
+// through a nullable reference is not type-correct.
+func c06GoNamedOptionalBuilder(ctx *Ctx, r *Report) int {
+	n := 0
+	if fn := ctx.LookupMethod("internal/jennies/golang", "Builder", "generateBuilder"); fn == nil {
+		r.Undecided("anchor lost: golang.Builder.generateBuilder")
+	} else if fd, _ := ctx.DeclOf(fn); fd != nil {
+		asks := false
+		ast.Inspect(fd.Body, func(m ast.Node) bool {
+			if sel, ok := m.(*ast.SelectorExpr); ok && sel.Sel.Name == "Nullable" && strings.Contains(exprString(sel.X), ".For.Type") {
+				asks = true
+			}
+			return true
+		})
+		n++
+		r.Check(asks, "skeleton/go-named-optional-builder", "golang.Builder.generateBuilder builds an object whose own type can be nullable", fd.Pos(), "it asks whether builder.For.Type is nullable",
+			"the Go builder of `MaybeAddress: Address | null` — `type MaybeAddress = *Address` once the chain made it a nullable reference — is written as for a struct: `internal *MaybeAddress`, `&MaybeAddress{}`, `builder.internal.City` — invalid composite literal type, the module does not compile")
 	}
 	return n
 }
